@@ -25,7 +25,8 @@ def _models(c, tier):
         (MC, "ReceiverImpl_abort_quick.cfg", dict(required_actions=("Process",), **ok)),
         # still open in the current code: storage is not bounded (orphan files)
         (MC, "ReceiverImpl_cex_orphan.cfg", dict(expect_violated=("BoundedFiles",), **cex)),
-        # still open: a refused upload deletes <n - maxNrBufSegs>, which is listed afterwards (and the proposed fix)
+        # repaired by 59900e3 (documented design counterexample with FixDeleteOnAccept = FALSE, and the same instance
+        # on the current code): a refused upload deleted <n - maxNrBufSegs>, which was listed afterwards
         (MC, "ReceiverImpl_cex_abortdelete.cfg", dict(expect_violated=("Listed",), **cex)),
         (MC, "ReceiverImpl_abortdelete_fixed.cfg", dict(workers=2, timeout=600, coverage=False)),
         # (R) generator: every interleaving of T=2 x M=4 for the windows 2, 3, 8
